@@ -13,7 +13,7 @@ package zkmul
 //@ func (*Proof).Verify
 //@   use bits
 //@   nopanic[C10]
-//@   modifies hstate(hash)
+//@   modifies hstate(hash), wlog(hash.h)
 //@   requires group != nil && hash != nil && hash.h != nil && true && true && true && pkok(public.Prover) && pkvals(public.Prover) && pkbig(public.Prover)
 
 //@ func challenge
